@@ -226,6 +226,8 @@ const (
 	ErrEndifWithoutMatchingIf Error = "$endif without matching $if"
 	// ErrUnknownModifier is the unknown modifier error.
 	ErrUnknownModifier Error = "unknown modifier"
+	// ErrIncludeTooDeep is the $include nesting too deep error.
+	ErrIncludeTooDeep Error = "$include nesting too deep"
 )
 
 // Error satisfies the error interface.
